@@ -337,7 +337,7 @@ def load_pins():
     p = os.path.join(os.path.dirname(os.path.abspath(__file__)), 'c11_pins.json')
     if not os.path.exists(p):
         return {}
-    with open(p) as f:
+    with open(p, encoding='utf-8') as f:
         return json.load(f)
 
 
